@@ -287,6 +287,38 @@ def run(eng, R):
     for k, v in sorted(tests.items()):
         R.ob("E7", "shorthand list:%s" % k, v == ref, (pe.file, pe.lineno), "the shorthand list test for %s accepts %s, the sibling sections accept %s: the same YAML list works for one section and is rejected for another" % (k, v, ref))
 
+    # ---------------------------------------------------------------- E9: nothing clears the loaded results after they were installed
+    R.rule("E9", "in the fit reader no call that clears the loaded results (a fit mutator) can follow the installation of the stored fit results", 1)
+    g = eng.cfg(fr)
+    XF = p.find_class("XYFit")
+
+    def installs(n):
+        st = n.stmt
+        return n.kind == "stmt" and isinstance(st, ast.Assign) and any(isinstance(t, ast.Attribute) and t.attr == "_loaded_result_dict" and isinstance(t.value, ast.Name) and t.value.id == "_fit_object" for t in st.targets)
+
+    inst = [n for n in g.stmt_nodes() if installs(n)]
+    if not inst:
+        raise AnalysisError("FitYamlReader: installation of the loaded results not found")
+    clearing = {}
+    for n in g.stmt_nodes():
+        for c in eng.calls_in_parts(n.ast_parts()):
+            if isinstance(c.func, ast.Attribute) and isinstance(c.func.value, ast.Name) and c.func.value.id == "_fit_object":
+                m = XF.find_method(c.func.attr)
+                if m is not None and "_loaded_result_dict" in eng.eff.trans_writes(XF, m):
+                    clearing[n.id] = c.func.attr
+    bad = None
+    for n in inst:
+        pth = g.find_path(n.id, lambda k: k.id in clearing, exceptional=False)
+        if pth is not None:
+            bad = (n, pth[-1])
+    R.ob("E9", "FitYamlReader:results installed last", bad is None, (fr.file, bad[0].lineno if bad else fr.lineno),
+         "after the stored fit results are installed the reader still calls _fit_object.%s(), which clears them: a reloaded fit with that feature reports did_fit=False and no uncertainties" % (clearing.get(bad[1].id) if bad else ""))
+
+    # ---------------------------------------------------------------- E10: exact collapse of constant error vectors
+    R.rule("E10", "an uncertainty vector is written as a single number only if all entries are exactly equal (no tolerance)", 1)
+    tol = [common.call_name(c) for c in ast.walk(we.node) if isinstance(c, ast.Call) and common.call_name(c) in ("allclose", "isclose")]
+    R.ob("E10", "write_errors_to_yaml:collapse", not tol, (we.file, we.lineno), "write_errors_to_yaml collapses error vectors with a tolerance (%s): vectors of small, different uncertainties come back as a constant" % tol)
+
     # ---------------------------------------------------------------- E8
     src = " ".join(ast.unparse(fr.node).split())
     R.ob("E8", "FitYamlReader:param model", "_fit_object._param_model = _read_parametric_model" not in src or ("_on_error_change_callback = _fit_object._on_error_change" in src and "_fit_object._on_error_change()" in src),
